@@ -42,6 +42,10 @@ type piece struct {
 }
 
 type pamCase struct {
+	// SockLen > 0 (server "none" only): the sock= option names a non-existent path of exactly this many bytes
+	SockLen int `json:"sock_len,omitempty"`
+	// SendMax > 0: every send() of the module transfers at most that many bytes (short writes)
+	SendMax int `json:"send_max,omitempty"`
 	User    *string  `json:"user"`
 	StackPW *string  `json:"stackpw"`
 	ConvPW  *string  `json:"convpw"`
@@ -101,10 +105,17 @@ func genPamCase(t *rapid.T) pamCase {
 		// values that are not a positive number of seconds are ignored (with a warning) wherever they stand: the effective timeout stays 1 s
 		"timeout=1 timeout=-1", "timeout=1 timeout=0", "timeout=1 timeout=abc", "timeout=1 timeout=4294967295", "timeout=1 timeout=2147483648",
 		"timeout=1 timeout=99999999999999999999", "timeout=-1 timeout=1", "timeout=1 timeout=-0"}).Draw(t, "timeoutopt"))
+	c.SendMax = rapid.SampledFrom([]int{0, 0, 0, 0, 1, 2, 3, 7, 100}).Draw(t, "sendmax")
 	if rapid.IntRange(0, 7).Draw(t, "silent") == 0 {
 		c.Flags = 0x8000
 	}
-	c.Server = rapid.SampledFrom([]string{"script", "script", "script", "script", "script", "script", "none", "noaccept", "gate-close"}).Draw(t, "server")
+	c.Server = rapid.SampledFrom([]string{"script", "script", "script", "script", "script", "script", "none", "none", "noaccept", "gate-close"}).Draw(t, "server")
+	if c.Server == "none" {
+		c.SockLen = rapid.SampledFrom([]int{0, 0, 100, 106, 107, 108, 109, 110, 200, 1024, 4096}).Draw(t, "socklen")
+		if c.SockLen >= 107 && c.SockLen <= 109 {
+			vlib.Class("unreachable-socket-path-of-107..109-bytes")
+		}
+	}
 	c.ReadAll = rapid.IntRange(0, 3).Draw(t, "readall") != 0
 	c.ReadK = rapid.IntRange(0, 20).Draw(t, "readk")
 	c.End = rapid.SampledFrom([]string{"close", "close", "keep"}).Draw(t, "end")
@@ -245,6 +256,10 @@ func runPam(c pamCase) (runResult, error) {
 	}
 	defer os.RemoveAll(dir)
 	sock := filepath.Join(dir, "s")
+	if c.Server == "none" && c.SockLen > len(dir)+2 {
+		// an unreachable socket whose path has a chosen length (sun_path holds 108 bytes)
+		sock = dir + "/" + strings.Repeat("s", c.SockLen-len(dir)-1)
+	}
 	var cf bytes.Buffer
 	hx := func(p *string) string {
 		if p == nil {
@@ -275,6 +290,9 @@ func runPam(c pamCase) (runResult, error) {
 	var so, se bytes.Buffer
 	cmd.Stdout, cmd.Stderr = &so, &se
 	cmd.Env = append(os.Environ(), "ASAN_OPTIONS=exitcode=99:detect_leaks=1:abort_on_error=0", "UBSAN_OPTIONS=halt_on_error=1:exitcode=98:print_stacktrace=1")
+	if c.SendMax > 0 {
+		cmd.Env = append(cmd.Env, fmt.Sprintf("PAMDRV_SEND_MAX=%d", c.SendMax))
+	}
 	var gateR, gateW *os.File
 	var childEnds []*os.File
 	if c.Server == "gate-close" {
@@ -573,7 +591,8 @@ func TestC20AgainstRealServer(t *testing.T) {
 func TestC13PamEncoder(t *testing.T) {
 	lens := []int{0, 1, 2, 254, 255, 256, 257, 300}
 	for _, ul := range lens {
-		for _, pl := range lens {
+		for pi, pl := range lens {
+			sendMax := []int{0, 1, 2, 3, 100, 0, 7, 255}[(pi+ul)%8] // short writes of the module's send(): the bytes on the wire stay the same
 			mk := func(n int, seed byte) string {
 				b := make([]byte, n)
 				for i := range b {
@@ -583,7 +602,7 @@ func TestC13PamEncoder(t *testing.T) {
 			}
 			user, pw := mk(ul, 7), mk(pl, 99)
 			c := pamCase{User: &user, StackPW: &pw, Opts: []string{"use_first_pass", "timeout=1"}, Server: "script", ReadAll: true, End: "close",
-				Pieces: []piece{{Data: []byte{0, 2, 'O', 'K'}, Len: 4}}, Reply: "text:OK"}
+				Pieces: []piece{{Data: []byte{0, 2, 'O', 'K'}, Len: 4}}, Reply: "text:OK", SendMax: sendMax}
 			rr, err := runPam(c)
 			if err != nil {
 				t.Fatalf("VERIF-INFRA %v", err)
@@ -601,7 +620,10 @@ func TestC13PamEncoder(t *testing.T) {
 				vlib.Violation("PAM encoder bytes differ from the Go encoder's", "TestC13PamEncoder", map[string]any{"user_len": ul, "pw_len": pl})
 				t.Fatalf("VIOLATION C13: the PAM module's request bytes differ from sasl.Request.Marshal for the same (clipped) fields: %d vs %d bytes (reference %d)", len(rr.request), len(goBytes), len(want))
 			}
-			vlib.NT("c13pam", ul, pl)
+			vlib.NT("c13pam", ul, pl, sendMax)
+			if sendMax > 0 {
+				vlib.Class("pam-encoder:short-writes")
+			}
 		}
 	}
 	vlib.Class("pam-encoder-grid")
